@@ -196,8 +196,11 @@ func c09Pan(c *Ctx, tp *tape.Tape, extra map[string]any) *Failure {
 			r := run(&f, false)
 			c.Res.Evaluations++
 			c.Count("faults_fired:"+fk, r.Node.Fired[fk])
-			if k, m := judgePanFault(r, o, f, approve); k != "" && !c.NoteKnown(k) {
-				return mk(k, m, r, &f)
+			if k, m := judgePanFault(r, o, f, approve); k != "" {
+				if !c.NoteKnown(k) {
+					return mk(k, m, r, &f)
+				}
+				continue
 			}
 			if k, m := judgePanOK(r, o, approve); k != "" && !c.NoteKnown(k) {
 				return mk(k, m, r, &f)
